@@ -3,6 +3,7 @@ import ZCV.Lemmas.Include
 import ZCV.Lemmas.SlotsLoad
 import ZCV.Lemmas.SlotsEx
 import ZCV.Lemmas.HistoryEx
+import ZCV.Lemmas.HistoryAbsorb
 namespace ZCV.Props.C13
 open ZCV ZCV.Cfg
 
@@ -460,5 +461,70 @@ example : load Ex.conv Ex.env Ex.pkgs (runHistoryApp Ex.conv Ex.env Ex.pkgs Ex.s
     .error (synErr none 1 "start:unknown type name") := by
   rw [C13_later_load_depends_only_on_leak, C13_faithful_history_trace.1]
   exact HEx.load_app_use
+
+/-! ### a later load that imports the leaking components itself -/
+
+/-- **Corollary: importing first makes a load independent of the history.**  After ANY history on the schema object, take a
+    load whose text starts with `%import` / `%define` / comment lines (`pre`) before anything else (`rest`: any lines).  If –
+    whenever that head goes through on the FRESH schema – the head itself makes every `addsubtype` call the history made
+    (it imports, before the first section, the components whose implementers leaked), then the load gives on the used
+    schema object what it gives on the fresh schema: the same error, or the same value tree and handler entries (the
+    schema the load ends with differs in the ORDER of implementer tables at most: `LoadEquiv`). -/
+theorem C13_importing_first_absorbs_the_leak (conv : Conv) (env : Env) (pkgs : Str → Pkg) (s : Schema) (hist : List LoadReq)
+    (url : Option Str) (pre rest specs : List Str) (hpre : ∀ l ∈ pre, HeaderLine l)
+    (hcov : ∀ ps0 st1, loadInit conv pkgs s specs = .ok ps0 →
+      runLines 64 env loaderCtx (activeOf url) url pre 0 ps0 = .ok st1 →
+      ∀ ia ∈ historyRegs conv env pkgs s hist, ia ∈ (linesStop 64 env (activeOf url) url pre 0 ps0).regs) :
+    LoadEquiv s.types.length (load conv env pkgs s url (pre ++ rest) specs)
+      (load conv env pkgs (runHistoryApp conv env pkgs s hist).2 url (pre ++ rest) specs) := by
+  rw [runHistoryApp_schema]
+  exact load_absorbs conv env pkgs s _ url pre rest specs hpre
+    (fun ps0 st1 h0 h1 => withImplementers_absorb s _ _ (hcov ps0 st1 h0 h1))
+
+/-- … in terms of components: it is enough that the head of the later load reads, to its end, every component that some
+    load of the history read (completely or up to where it broke off) -/
+theorem C13_reimporting_components_absorbs_the_leak (conv : Conv) (env : Env) (pkgs : Str → Pkg) (s : Schema)
+    (hist : List LoadReq) (url : Option Str) (pre rest specs : List Str) (hpre : ∀ l ∈ pre, HeaderLine l)
+    (hcov : ∀ ps0 st1, loadInit conv pkgs s specs = .ok ps0 →
+      runLines 64 env loaderCtx (activeOf url) url pre 0 ps0 = .ok st1 →
+      ∀ p ∈ historyImports conv env pkgs s hist ++ historyBroken conv env pkgs s hist,
+        p ∈ (linesStop 64 env (activeOf url) url pre 0 ps0).imports) :
+    LoadEquiv s.types.length (load conv env pkgs s url (pre ++ rest) specs)
+      (load conv env pkgs (runHistoryApp conv env pkgs s hist).2 url (pre ++ rest) specs) := by
+  refine C13_importing_first_absorbs_the_leak conv env pkgs s hist url pre rest specs hpre ?_
+  intro ps0 st1 h0 h1 ia hia
+  obtain ⟨p, hp, hpi⟩ := historyRegs_pkg conv env pkgs s hist ia hia
+  have hsrc : Sourced pkgs (linesStop 64 env (activeOf url) url pre 0 ps0) :=
+    linesStop_inv (stopInv_sourced pkgs) env 64 _ _ _ _ ps0 (loadInit_ok conv pkgs s specs ps0 h0).2
+  exact hsrc.complete p (hcov ps0 st1 h0 h1 p hp) ia hpi
+
+/-- the corollary at work: after the history `%import p`, the load `%import p` / `<leak/>` – which imports the leaking
+    component first – gives on the used schema object what it gives on the fresh one (it is accepted) -/
+example : LoadEquiv Ex.schema.types.length
+    (load Ex.conv Ex.env Ex.pkgs Ex.schema none (["%import p".toList] ++ ["<leak/>".toList]) [])
+    (load Ex.conv Ex.env Ex.pkgs (runHistoryApp Ex.conv Ex.env Ex.pkgs Ex.schema [HEx.qP]).2 none
+      (["%import p".toList] ++ ["<leak/>".toList]) []) := by
+  refine C13_reimporting_components_absorbs_the_leak Ex.conv Ex.env Ex.pkgs Ex.schema [HEx.qP] none _ _ []
+    (fun l hl => ?_) ?_
+  · simp only [List.mem_cons, List.mem_nil_iff, or_false] at hl
+    subst hl
+    exact .inr (.inr ⟨_, HEx.shape_p⟩)
+  · intro ps0 st1 h0 _ p hp
+    rw [C13_faithful_history_trace.2.1, C13_faithful_history_trace.2.2] at hp
+    have hl : loadStop Ex.conv Ex.env Ex.pkgs Ex.schema none ["%import p".toList] [] =
+        linesStop 64 Ex.env (activeOf none) none ["%import p".toList] 0 ps0 := by
+      unfold loadStop
+      rw [h0]
+    rw [← hl, HEx.loadStop_p]
+    exact hp
+
+/-- … and the hypothesis is needed: the load `%import q` / `<leak/>` does not import `p`, and differs
+    (`C12_leak_admits_non_implementer`: accepted on the used object, rejected on the fresh one) -/
+example : ¬ LoadEquiv Ex.schema.types.length
+    (load Ex.conv Ex.env HEx.pkgsH Ex.schema none ["%import q".toList, "<leak/>".toList] [])
+    (load Ex.conv Ex.env HEx.pkgsH HEx.schemaL none ["%import q".toList, "<leak/>".toList] []) := by
+  obtain ⟨r, hr, _⟩ := HEx.load_twin_used
+  rw [HEx.load_twin_fresh, hr]
+  exact fun h => h
 
 end ZCV.Props.C13
